@@ -80,13 +80,20 @@ class Corpus:
                 self.add_text(text, origin="optional-in-sized")
             for text in GD.sized_body(random.Random(self.seed * 7919 + 23)):
                 self.add_text(text, origin="sized-body")
+            for text in GD.nested_sized_payload(random.Random(self.seed * 7919 + 29)):
+                self.add_text(text, origin="nested-sized-payload")
             for text in GD.wide(irng, 2 if self.tier == "quick" else 12):
                 self.add_text(text, origin="wide")
-        tries = 0
-        while len(self.descs) < self.n_desc + len(self.extra_texts) and tries < self.n_desc * 3:
+        # random descriptions: what is left of the budget after the families, and never fewer than a floor (the families
+        # have grown with every round of seeded changes; they must not crowd the random exploration out)
+        floor = (10 if self.tier == "quick" else 40) if self.n_desc > 0 else 0
+        want = max(self.n_desc + len(self.extra_texts) - len(self.descs), floor)
+        tries, made = 0, 0
+        while made < want and tries < max(self.n_desc, floor) * 3:
             tries += 1
             text, g = GD.generate(self.rng, self.opts)
-            self.add_text(text, g)
+            if self.add_text(text, g) is not None:
+                made += 1
         for d in self.descs:
             for f in d["features"]:
                 self.run.hist("features", f)
